@@ -13,7 +13,7 @@ use std::collections::BTreeMap;
 const P: &str = "C08";
 
 pub const W_FILES: Weights = Weights { create: 8, drop: 5, insert: 14, update: 8, delete: 8, select: 0, wstream: 2, rstream: 1, summary: 1, sum_cp: 0, db_cp: 2, flush: 0, reopen: 3 };
-pub const FILES: Profile = Profile { name: "files", allow_empty: true, allow_key_update: true, allow_long: true, codepages: true, non_ascii: true };
+pub const FILES: Profile = Profile { name: "files", allow_empty: true, allow_key_update: true, allow_long: true, codepages: true, non_ascii: true, try_invalid: false };
 
 /// The bits of the column type word that the format description fixes for
 /// the attributes the API reports.
